@@ -72,8 +72,20 @@ func (r *Report) add(status, rule, construct string, pos token.Pos, fn, detail, 
 		o.File, o.Line = r.prog.Pos(pos)
 	}
 	if r.prog != nil && r.prog.GOOS != "linux" {
-		o.Construct = construct
 		o.Detail = "[" + r.prog.GOOS + "] " + detail
+		if status == "violation" {
+			// already reported on the primary (linux) build: one construct, one report
+			for _, x := range r.Obligs {
+				if x.Status == "violation" && x.Rule == rule && x.Construct == construct {
+					return
+				}
+			}
+			// constructs that only exist in the secondary build's platform files are outside the claim
+			if strings.HasSuffix(o.File, "_"+r.prog.GOOS+".go") {
+				o.Status = "info"
+				o.Detail += " (platform-only file of the secondary build: outside the claim, reported for information)"
+			}
+		}
 	}
 	for _, x := range r.Obligs {
 		if x == o {
